@@ -225,12 +225,41 @@ def check(ctx):
         ctx.notes.append(f"translated table disagrees with the specification on a pair that is not a recorded finding: {p}")
     for p in sorted(K - D):
         ctx.notes.append(f"recorded pair {p} no longer disagrees (stale finding entry)")
+    # roles: derivation shape of whole programs, CST and typed accessors (vf/gen_ref.py, vf/refcheck.py)
+    from . import refcheck as R
+    from . import c04
+    q = ctx.tier == "quick"
+    rrecs, rstats = R.run_ref(ctx, 3000 if q else 50000, depth=3 if q else 4, seed_off=50)
+    nroles = 0
+    for r in rrecs:
+        if r["panic"]:
+            continue
+        acc, shape = c04.split_mismatch(r["cst"])
+        if acc:
+            continue                       # not an accepted program: C04's business
+        ok = True
+        if shape:
+            ok = False
+            failures.append({"case": r["line"], "check": "cst_roles", "detail": {"text": r["case"]["text"], "what": shape[:3]},
+                             "guards": set(r["causes_cst"]), "model_agrees": True,
+                             "replay_how": "echo '<input>' | /verif/harness/target/debug/oq3-run tree ; expected structure: vf/gen_ref.py"})
+        if r["ast"]:
+            ok = False
+            failures.append({"case": r["line"], "check": "ast_roles", "detail": {"text": r["case"]["text"], "what": r["ast"][:3]},
+                             "guards": set(r["causes_ast"]), "model_agrees": True,
+                             "replay_how": "echo '<input>' | /verif/harness/target/debug/oq3-run ast ; expected roles: vf/gen_ref.py match_ast"})
+        if ok:
+            nroles += 1
+    nontriv += nroles
+    ctx.coverage["role_programs"] = {"cases": rstats["cases"], "accepted_and_matching": nroles,
+                                     "attributed_cst": rstats["cst_attributed"], "attributed_ast": rstats["ast_attributed"]}
     failures.sort(key=lambda x: len(x["case"]))
     C.decide(ctx, failures, findings)
     ctx.coverage.update({
         "evaluations": len(cases), "distinct_nontrivial": nontriv,
         "rule": "all 19x19 ordered binary operator pairs `a o1 b o2 c`, all 3x19 unary/binary combinations in both positions (exhaustive), plus random expression token strings of depth <= 4 over all operators with parentheses; each parsed by the real parser (CST shape extracted), by the abstract Pratt core with the translated table (correspondence) and by an independent precedence-climbing parser with the OpenQASM 3 table (oracle); non-trivial = real parser agrees with the specification without diagnostics",
         "exhaustive": True, "operator_pairs": 361,
+        "roles_rule": "programs derived from the reference grammar with their derivation trees (every statement kind, all four block/statement body combinations of if/else, else-if chains, 2- and 3-component ranges in for-iterables and index positions, chained index operators on identifier/call/cast/paren bases, modifiers, argument and operand lists), each also split into its top-level statements; the CST (`tree`) and the typed-accessor view (`ast`) of the real front end must have the derivation's constituents in the derivation's roles",
         "traces_validated_against_impl": len(cases) if have_model else 0,
         "translated_table": table.get("pows", ""), "disagree_pairs": len(D), "recorded_pairs": len(K),
         "correspondence_disagreements": ndis,
@@ -238,5 +267,5 @@ def check(ctx):
     })
     return C.finish(ctx, trusted=C.TRUSTED_COMMON + [
         "the expression core is abstracted from events to trees (Oq3/Model/Pratt.lean); the abstraction is tied to the real parser by the shape comparison on every case",
-        "roles of statement constituents (typed accessors) are checked by the C06 machinery, not here"],
+        "roles of statement constituents: the typed accessors of oq3_syntax::ast are run, not modelled in Lean; they are decided by the reference-derivation oracle (vf/gen_ref.py) on the implementation's CST and typed-AST dump"],
         assumptions=["OpenQASM 3 precedence table as in Oq3.Props.C05.specLevel"])
